@@ -30,7 +30,7 @@ class C14(Prop):
     imports = "From Tola Require Import Py.Base Model.Fragment Model.Scaffold Model.Fasta Model.Stream Corr.Fasta."
     show_fn = "show"
     design_ref = "6/C14"
-    required_theorems = ['C14_rows_reverse_involutive', 'C14_rows_reverse_spec', 'C14_row_reverse_spec', 'C14_complement_involutive', 'C14_revcomp_involutive', 'C14_revcomp_app', 'C14_rev_chunks_is_revcomp_of_fwd', 'C14_rev_chunks_chunkwise', 'C14_strand0_refuted', 'C14_good_access_satisfiable']
+    required_theorems = ['C14_rows_reverse_involutive', 'C14_rows_reverse_spec', 'C14_row_reverse_spec', 'C14_complement_involutive', 'C14_revcomp_involutive', 'C14_revcomp_app', 'C14_rev_chunks_is_revcomp_of_fwd', 'C14_rev_chunks_chunkwise', 'C14_stream_reverse', 'C14_strand0_refuted', 'C14_good_access_satisfiable']
 
     def rule(self):
         return (
